@@ -269,7 +269,25 @@ def shared_argument_histories():
             yield {"family": "shared-arguments", "a": i, "b": j, "c": k, "flavour": "shared-arguments"}, [steps[i], steps[j], steps[k]]
 
 
+# The same, with a root namespace of 70 definitions (more than any per-namespace listing cache considers "small")
+def wide_revision_histories():
+    def step(inner, op):
+        files = {"qql/Inner.1.0.dsdl": inner}
+        for i in range(70):
+            files["qqa/T%02d.1.0.dsdl" % i] = ("qql.Inner.1.0 one\nuint8 COPY = qql.Inner.1.0.K\n" if i % 10 == 0 else "") + "uint8[%d] pad\n@sealed\n" % (i % 5 + 1)
+        st = {"files": files, "op": op, "root": "qqa", "lookups": ["qql"]}
+        if op == "rf":
+            st["targets"] = ["qqa/T00.1.0.dsdl", "qqa/T69.1.0.dsdl"]
+        return st
+
+    revs = [INNER[0], INNER[1], INNER[5], INNER[3]]
+    for op in ("rn", "rf"):
+        for i, j in itertools.permutations(range(len(revs)), 2):
+            yield {"family": "wide-revisions", "op": op, "a": i, "b": j}, [step(revs[i], op), step(revs[j], op)]
+
+
 FAMILIES = {
+    "wide-revisions": wide_revision_histories,
     "shared-arguments": shared_argument_histories,
     "minor-versions": minor_version_histories,
     "nested-revisions": nested_revision_histories,
